@@ -146,6 +146,9 @@ func (e *Expr) ToAST() ast.Node {
 	case OLike:
 		return a(0).Like(PatImpl(e.Pat))
 	case OSetLit:
+		if len(e.Args) == 0 {
+			return ast.Set()
+		}
 		ns := make([]ast.Node, len(e.Args))
 		for i := range e.Args {
 			ns[i] = a(i)
@@ -166,6 +169,9 @@ func (e *Expr) ToAST() ast.Node {
 	case OIsEmpty:
 		return a(0).IsEmpty()
 	case OExt:
+		if len(e.Args) == 0 {
+			return ast.ExtensionCall(types.Path(e.Str))
+		}
 		ns := make([]ast.Node, len(e.Args))
 		for i := range e.Args {
 			ns[i] = a(i)
@@ -176,6 +182,9 @@ func (e *Expr) ToAST() ast.Node {
 }
 
 func PatImpl(p []PatElem) types.Pattern {
+	if len(p) == 0 {
+		return types.NewPattern(types.String(""))
+	}
 	var comps []any
 	for _, c := range p {
 		if c.Wild {
